@@ -252,6 +252,8 @@ class Builtins:
             if h is not None:
                 return Str((h.derive(f"[{I.show(idx)}]"),))
             return Str((Hole(tag, "char"),))
+        if isinstance(base, Unknown) and "group0" in base.meta and isinstance(idx, IntV) and idx.v == 0:
+            return base.meta["group0"]
         if isinstance(base, Unknown):
             return Unknown(f"{base.tag}[{I.show(idx)}]", {"recv": base, "index": idx,
                                                           "expr": f"{I.expr_of(base)}[{I.expr_of(idx)}]"})
@@ -1099,7 +1101,39 @@ class Builtins:
         argtxt = ", ".join([I.expr_of(a) for a in args] + [f"{k}={I.expr_of(v)}" for k, v in kwargs.items()])
         m = {"extern": name, "args": args, "kwargs": kwargs, "expr": f"{name}({argtxt})"}
         m.update(meta)
+        if meta.get("match_or_none"):
+            pat = args[0] if args else kwargs.get("pattern")
+            subj = args[1] if len(args) > 1 else kwargs.get("string")
+            if isinstance(pat, Str) and pat.is_concrete():
+                m["group0"] = self._group0(name, pat.text(), subj)
+                m["pattern_text"] = pat.text()
+                m["subject"] = subj
         return Unknown(I.run.new_tag(f"{name}(...)"), m)
+
+    def _group0(self, name: str, pattern: str, subj) -> Str:
+        """the text matched by a concrete regex: an opaque string whose first/last characters are known
+        when the pattern begins/ends with a literal"""
+        from . import rx as _rx
+        first = last = None
+        try:
+            ast_ = _rx.parse(pattern)
+            f = _rx.first_leaves(ast_)
+            l = _rx.last_leaves(ast_)
+            if f and all(isinstance(x, _rx.Char) for x in f) and len({x.c for x in f}) == 1 and not _rx.nullable(ast_):
+                first = f[0].c
+            if l and all(isinstance(x, _rx.Char) for x in l) and len({x.c for x in l}) == 1 and not _rx.nullable(ast_):
+                last = l[0].c
+        except Exception:
+            pass
+
+        def oracle(op, arg, first=first, last=last):
+            if op == "startswith" and first is not None and isinstance(arg, str) and len(arg) == 1:
+                return arg == first
+            if op == "endswith" and last is not None and isinstance(arg, str) and len(arg) == 1:
+                return arg == last
+            return None
+        tag = f"match({pattern!r},{self.I.expr_of(subj)})"
+        return Str((Hole(tag, "match", True, oracle, meta={"pattern": pattern, "subject": subj, "api": name}),))
 
     def x_regex_search(self, args, kwargs, node, fr) -> Value:
         return self._rx_call("regex.search", args, kwargs, node, fr, {"match_or_none": True})
@@ -1121,6 +1155,31 @@ class Builtins:
 
     def x_re_fullmatch(self, args, kwargs, node, fr) -> Value:
         return self._rx_call("re.fullmatch", args, kwargs, node, fr, {"match_or_none": True})
+
+    def x_re_compile(self, args, kwargs, node, fr) -> Value:
+        pat = args[0] if args else kwargs.get("pattern")
+        return Unknown(self.I.run.new_tag("re.compile"), {"compiled": ("re", pat), "truthy": True, "not_none": True,
+                                                          "expr": f"re.compile({self.I.expr_of(pat)})",
+                                                          "flags": [self.I.expr_of(a) for a in args[1:]]})
+
+    def x_regex_compile(self, args, kwargs, node, fr) -> Value:
+        pat = args[0] if args else kwargs.get("pattern")
+        return Unknown(self.I.run.new_tag("regex.compile"), {"compiled": ("regex", pat), "truthy": True, "not_none": True,
+                                                             "expr": f"regex.compile({self.I.expr_of(pat)})",
+                                                             "flags": [self.I.expr_of(a) for a in args[1:]]})
+
+    def x_re_split(self, args, kwargs, node, fr) -> Value:
+        I = self.I
+        pat = args[0] if args else kwargs.get("pattern")
+        subj = args[1] if len(args) > 1 else kwargs.get("string")
+        I.run.event("extern_call", name="re.split", args=args, kwargs=kwargs, node=node, recv=None,
+                    func=(fr.func.qualname if fr and fr.func else ""), module=(fr.module if fr else ""))
+        ptxt = pat.text() if isinstance(pat, Str) and pat.is_concrete() else I.expr_of(pat)
+        src = f"re.split({ptxt!r},{I.expr_of(subj)})"
+        return AbsList(Str((Hole(src + "[*]", "piece", None, meta={"resplit_pattern": ptxt, "subject": subj}),)),
+                       src, {"nonempty": True, "resplit": ptxt, "subject": subj,
+                             "extra_args": [I.expr_of(a) for a in args[2:]] + [f"{k}={I.expr_of(v)}" for k, v in kwargs.items()
+                                                                            if k not in ("pattern", "string")]})
 
     # ---- stdlib ------------------------------------------------------------
     def x_itertools_permutations(self, args, kwargs, node, fr) -> Value:
